@@ -208,6 +208,9 @@ def handle (line : String) : String :=
       let sigs : List (Str × TS.FSig) := (parseAll evS).filterMap (fun x => match x with
         | .list [.atom n, .list ps, r] =>
           some (hexStr n, { params := ps.map toTy, ret := (match r with | .atom "-" => none | t => some (toTy t)) })
+        | .list [.atom n, .list ps, r, v] =>
+          some (hexStr n, { params := ps.map toTy, ret := (match r with | .atom "-" => none | t => some (toTy t)),
+                            variadic := (match v with | .atom "-" => none | t => some (toTy t)) })
         | _ => none)
       let globals : List (Str × Ty) := (parseAll inS).filterMap (fun x => match x with
         | .list [.atom n, t] => some (hexStr n, toTy t)
